@@ -196,6 +196,8 @@ class Sem(object):
             return out
         if rv == 0:
             raise Prune("c-div-zero")
+        if rv == -1 and not self.tlc and lv == trange(arith(lt, rt))[0]:
+            raise Prune("c-div-overflow")          # MIN / -1 and MIN % -1 are undefined in C (SIGFPE on x86)
         q = _tdiv(lv, rv)
         return self.res(arith(lt, rt), q if op == "cdiv" else lv - q * rv)
 
@@ -301,7 +303,13 @@ class Sem(object):
             if tag == "set":
                 self.store(env, s[1], self.eval(s[2], env, types))
             elif tag == "decl":
-                self.store(env, s[1], self.eval(["cast", types[s[1]], s[2]], env, types))
+                t, v = self.eval(s[2], env, types)
+                T = types[s[1]]
+                if kind(t) == "d" and kind(T) != "d":
+                    raise Prune("kind-mismatch")
+                if kind(T) == "b" and kind(t) == "i" and v not in (0, 1):
+                    raise Prune("assign-range")
+                self.store(env, s[1], self.cast(T, (t, v)))
             elif tag == "if":
                 t, v = self.eval(s[1], env, types)
                 self.block(s[2] if v != 0 else s[3], env)
@@ -470,9 +478,11 @@ class Gen(object):
         first = "decl" if p["lstyle"] == "declval" else "set"
         for v in ("x", "y"):
             e = self.expr(kind(types[v]), 2, scope, helper_ret)
-            if first == "decl" and rng.random() < 0.35 and kind(types[v]) in ("i", "d"):
-                # declare(T, e) converts: an int into a double variable, a double (truncated) into an int variable
-                e = self.expr("d" if kind(types[v]) == "i" else "i", 1, scope, helper_ret)
+            if first == "decl" and rng.random() < 0.35 and kind(types[v]) == "d":
+                # declare(T, e) converts like a C assignment: an int into a double variable
+                e = self.expr("i", 1, scope, helper_ret)
+            elif first == "decl" and rng.random() < 0.08 and kind(types[v]) == "i":
+                e = self.expr("b", 1, scope, helper_ret)
             body.append([first, v, e])
             scope[v] = types[v]
         for _ in range(rng.choice([0, 1, 1, 2])):
@@ -760,8 +770,15 @@ def table_module():
         L += ["def decl_%s_from_py(v):" % T, "    x = cython.declare(%s, v)" % cy(T), "    return x", ""]
     for T in PY_T:
         L += ["def pycast_%s(v):" % T, "    return cython.cast(%s, v)" % T, ""]
-        L += ["def pycast_%s_tc(v):" % T, "    return cython.cast(%s, v, typecheck=True)" % T, ""]
+        if T != "object":
+            L += ["def pycast_%s_tc(v):" % T, "    return cython.cast(%s, v, typecheck=True)" % T, ""]
     return "\n".join(L) + "\n"
+
+
+def object_typecheck_module():
+    """cast(object, v, typecheck=True) on its own: it crashes the compiler (known finding)"""
+    return "\n".join(["# cython: language_level=3", "import cython", "", "def pycast_object_tc(v):",
+                      "    return cython.cast(object, v, typecheck=True)", ""])
 
 
 # ---------------------------------------------------------------------------------------------
